@@ -220,6 +220,9 @@ class Session(object):
                 outcome = ('raise', pe.value)
             finally:
                 interp.under_verification = None
+            if outcome[0] == 'return':
+                V.ctx.oblige('%s/nothrow' % name, z3.BoolVal(True),
+                             kind='nothrow')
             if outcome[0] == 'raise':
                 ok = any(outcome[1].cls.issubclass(
                     interp.lib.exc_classes[c]) for c in contract.raises)
@@ -263,13 +266,15 @@ class Session(object):
                 pre[i] = ('sat', {}, 'simplifier', 0.0, [])
                 continue
             smt = solver_mod.to_smt2(o.pc, o.goal, o.expect)
-            jobs.append((i, smt, want_models))
+            jobs.append((i, smt, want_models, o.kind == 'cover'))
         # identical queries (same path prefix, different option forks) are
         # solved once
         uniq = {}
         for j in jobs:
             uniq.setdefault(j[1], []).append(j[0])
-        ujobs = [(idxs[0], smt, want_models) for smt, idxs in uniq.items()]
+        quick = dict((j[0], j[3]) for j in jobs)
+        ujobs = [(idxs[0], smt, want_models, all(quick[i] for i in idxs))
+                 for smt, idxs in uniq.items()]
         self.unique_queries = len(ujobs)
         t0 = time.time()
         out = solver_mod.solve_all(ujobs)
